@@ -12,6 +12,7 @@ from . import rules_cursor as CU
 from . import rules_layout as LA
 from . import rules_flat as FL
 from . import witness as WI
+from . import rules_misc as MI
 
 TRUSTED_BASE = [
     "rustc nightly (type checker, MIR construction at mir-opt-level=0, compile_fail diagnostics)",
@@ -69,6 +70,9 @@ def _run(name, f):
         r = [LA.r_nth(f)[0]]
     elif name == "flatseq":
         r = [FL.r_flatseq(f)[0]]
+    elif name in ("copyshape", "flipshape", "conv", "intoiter", "sortkey", "fillshape", "drainlit"):
+        r = [{"copyshape": MI.r_copyshape, "flipshape": MI.r_flipshape, "conv": MI.r_conv, "intoiter": MI.r_intoiter,
+              "sortkey": MI.r_sortkey, "fillshape": MI.r_fill, "drainlit": MI.r_drainlit}[name](f)[0]]
     elif name == "witness":
         # compile-fail witnesses are configuration independent: run them once, with the default feature set
         r = [WI.r_witness(f.root)[0]] if getattr(f, "config", "default") == "default" else []
@@ -155,22 +159,22 @@ prop("C03", [sel("layout", fn=r"(::view|::view_mut|from_toodee|TooDeeView(Mut)?:
 prop("C04", [sel("encaps", fn=r"^(TooDeeViewMut|RowsMut|ColMut|<impls>)"), sel("witness", fn=r"^(W5|W8|W10|<witness>)", keep_rule_floor=False), sel("units", fn=r"TooDeeViewMut"), sel("dup"), sel("take", fn=r"^(RowsMut|ColMut)"), sel("cursor", fn=r"^(RowsMut|ColMut)( |:|$)|<rule>"), sel("layout", fn=r"^TooDeeViewMut|<rule>")],
      "Confinement to a mutable view, structural clauses: the view's fields are module-private and RowsMut/ColMut fields crate-private, TooDeeViewMut/RowsMut/ColMut are not Clone (no second writer), the generic algorithm layers (ops/sort/translate/copy) are written against the trait only and use only permutation primitives (R-DUP); the mutable cursors never read a taken slice (R-TAKE). (R-LAYOUT) every writer of module view (index_mut x2, get_unchecked*_mut, col_mut, rows_mut, swap_rows, view_mut, from_toodee, new) matches a confined schema with S = the view's stride: L-POS / L-ROW / L-COLV / L-SWAPROWS / L-WINDOW and the literals RowsMut { cols: C, skip_cols: stride - C }, ColMut { skip: stride - 1 }; (R-CURSOR) RowsMut / ColMut then hand out only [k*(C+K), +C) / single cells.",
      declined=["effect inside the rectangle equals the effect on an owned copy (runtime values)"])
-prop("C05", [sel("shape", rules=["R-HIDE", "R-LEAK", "R-LEAK-DRAIN", "R-DRAINSTEP"]), sel("dup"), sel("zstptr")],
+prop("C05", [sel("conv", fn=r"IntoIterator|From<toodee"), sel("shape", rules=["R-HIDE", "R-LEAK", "R-LEAK-DRAIN", "R-DRAINSTEP"]), sel("dup"), sel("zstptr")],
      "clauses only: ownership discipline of C05 - (R-HIDE) every bitwise move of elements (ptr::copy/read/write) happens while the Vec length is lowered and every normal path restores it, no restore on an unwind path; (R-DUP) the generic layers only permute; (R-ZSTPTR) progress is never decided by comparing element pointers (zero-sized T); (R-LEAK / R-LEAK-DRAIN) a leaked drain leaves a buffer whose visible part contains no moved-out element; (R-DRAINSTEP) the column drain's iterator methods only single-step the embedded cursor and read out each stepped-over element (a jumping override would forget elements).",
      declined=["the count: that raw moves copy each element to exactly one live slot (loop invariant over pointer offsets, DESIGN 2.1)"])
 prop("C06", [sel("guard", fn=INSERT), sel("zero", fn=INSERT), sel("shape", fn=INSERT), sel("deleg", fn=r"TooDee::push"), sel("zstptr", fn=INSERT), sel("units", fn=INSERT)],
      "clauses only: insert_row/insert_col/push_* - (R-GUARD) index <= the dimension of its own unit before anything else; (R-ZERO) the dimension grows only when data was inserted, an empty line into an empty array stays (0,0); (R-UNWIND) any rejected call or panicking iterator leaves a valid (possibly emptied) array; (R-HIDE) raw moves only in the hidden window; (R-DELEG) push_* pass the dimension as index; (R-ZSTPTR) the fill loop counts elements.",
      declined=["placement of the new line and preservation of the other cells (pointer arithmetic of the shift loops, DESIGN 2.1)"])
-prop("C07", [sel("guard", fn=REMOVE), sel("deleg", fn=r"TooDee::pop"), sel("zero", fn=REMOVE), sel("shape", fn=REMOVE), sel("encaps", fn=r"^DrainCol")],
-     "clauses only: remove_row/remove_col/pop_* - (R-GUARD) index < dimension of its unit; (R-DELEG) pop_* are guarded on non-emptiness and pass dim-1; (R-ZERO) removing the last line zeroes both dimensions; (R-LEAK, R-LEAK-DRAIN) the returned drain may be leaked at any stage; (R-UNWIND) the drain's destructor restores a product-form array even when an element's Drop panics; DrainCol implements Iterator + DoubleEndedIterator + ExactSizeIterator.",
+prop("C07", [sel("drainlit"), sel("guard", fn=REMOVE), sel("deleg", fn=r"TooDee::pop"), sel("zero", fn=REMOVE), sel("shape", fn=REMOVE), sel("encaps", fn=r"^DrainCol")],
+     "clauses only: remove_row/remove_col/pop_* - (R-GUARD) index < dimension of its unit; (R-DELEG) pop_* are guarded on non-emptiness and pass dim-1; (R-ZERO) removing the last line zeroes both dimensions; (R-LEAK, R-LEAK-DRAIN) the returned drain may be leaked at any stage; (R-UNWIND) the drain's destructor restores a product-form array even when an element's Drop panics; DrainCol implements Iterator + DoubleEndedIterator + ExactSizeIterator; (R-DRAINLIT) its cursor is Col { v: buffer[index .. index + len - num_cols + 1], skip: num_cols - 1 } - exactly the removed column, whose iteration order is C09's; (R-DRAINSTEP) every step reads the element out; (R-RESTORE) the destructor's caller-code points run under a live restorer guard.",
      declined=["the compaction arithmetic of DrainCol's destructor and the order of yielded elements (DESIGN 2.1; the latter follows from C09 for the embedded Col cursor)"])
 prop("C08", [sel("nonzero", fn=r"^(Rows|RowsMut) |<rule>"), sel("take", fn=ROWCUR), sel("ovf", fn=ROWCUR), sel("cursor", fn=r"^(Rows|RowsMut)( |:|$)|<rule>")],
      "Row cursors: (R-CURSOR) for Rows and RowsMut each of next, next_back, nth, nth_back, last, count, size_hint is evaluated path-wise over canonical polynomials and slice intervals and its (result, remaining slice) must equal the ideal strided-cursor update with item width cols and gap skip_cols; because the cursor state is one slice the ideal post-state is unique, so per-function conformance plus the recorded two-line induction covers every interleaving and every n (the overflow flag is a path atom); (R-TAKE) no read of the cursor slice after mem::take; (R-OVF) nth/nth_back multiply n with overflow detection that reaches the emptying branch.",
      declined=["fold/rfold are std's provided methods over next/next_back"])
 prop("C09", [sel("cursor", fn=r"^(Col|ColMut)( |:|$)|<rule>"), sel("take", fn=COLCUR), sel("ovf", fn=COLCUR), sel("guard", rules=["R-ARITH"], fn=COLCUR), sel("guard", fn=r"(::col$|::col_mut$| as TooDeeOps(Mut)?::col|get_col_params)")],
      "Column cursors: R-CURSOR (as C08 with item width 1 and gap skip) for Col and ColMut; R-TAKE, R-OVF as for rows; (R-ARITH) indexing multiplies with overflow detection and uses a checked slice index; (R-GUARD) col(c)/col_mut(c) panic for c >= num_cols on the three receivers. ")
-prop("C10", [sel("nonzero", fn=r"^FlattenExact|<rule>"), sel("flatseq"), sel("flat_struct"), sel("take", fn=r"^RowsMut"), sel("cursor", fn=r"^(Rows|RowsMut)( |:|$)|<rule>")],
-     "Cell iterators: (R-FLATSEQ) next, next_back, nth, nth_back of FlattenExact are evaluated from the four entry configurations (partial front row / partial back row present or not, symbolic remaining lengths, symbolic n) with the inner iterators modelled by their C08 contract as intervals of one flattened index space; on every path the returned element must be element 0 / n (from the respective end) and the merged remaining intervals must be exactly the ideal remaining sequence - since the ideal is stated on the denotation, per-function conformance covers every interleaving; (R-FLAT f2) front-direction methods of FlattenExact only advance inner iterators from the front, back-direction methods only from the back, fold/rfold chain front row, remaining rows, back row and fold in the matching direction; unsafe code is forbidden in the adaptor; the inner row cursors conform to the ideal strided cursor (R-CURSOR, C08).",
+prop("C10", [sel("intoiter"), sel("nonzero", fn=r"^FlattenExact|<rule>"), sel("flatseq"), sel("flat_struct"), sel("take", fn=r"^RowsMut"), sel("cursor", fn=r"^(Rows|RowsMut)( |:|$)|<rule>")],
+     "Cell iterators: (R-FLATSEQ) next, next_back, nth, nth_back of FlattenExact are evaluated from the four entry configurations (partial front row / partial back row present or not, symbolic remaining lengths, symbolic n) with the inner iterators modelled by their C08 contract as intervals of one flattened index space; on every path the returned element must be element 0 / n (from the respective end) and the merged remaining intervals must be exactly the ideal remaining sequence - since the ideal is stated on the denotation, per-function conformance covers every interleaving; (R-FLAT f2) front-direction methods of FlattenExact only advance inner iterators from the front, back-direction methods only from the back, fold/rfold chain front row, remaining rows, back row and fold in the matching direction; unsafe code is forbidden in the adaptor; (R-INTOITER) the five IntoIterator impls on references resolve to cells()/cells_mut(), which are FlattenExact::new(rows()/rows_mut()) starting with both partial rows None; last() is next_back(); size_hint is num_cols*iter.len() plus the partial rows; fold/rfold chain frontiter, iter, backiter; the inner row cursors conform to the ideal strided cursor (R-CURSOR, C08).",
      declined=["third-party TooDeeIterator implementations honouring their contract"])
 prop("C11", [sel("shape", rules=["R-UNWIND", "R-HIDE"]), sel("zero", fn=r"^(TooDee::(insert|remove|clear|swap_dim)|DrainCol|DropGuard)"), sel("sortshape", desc=r"s5")],
      "Panic safety is an exit-point property: (R-UNWIND) at every may-unwind terminator (caller code recognised structurally: trait methods on type parameters, closure parameters, drops of types mentioning a type parameter; allocation failure in reserve; assertion failures) of every shape writer, with a shape write still pending, the triple (len, rows, cols) - followed through cleanup blocks and restorer drops - is untouched, all-zero or in product form; (R-HIDE) bitwise duplicates only exist beyond the lowered length and no unwind path restores it; (R-SORTSHAPE s5) comparators/key functions run only inside the side sort, which dominates all array writes.",
@@ -178,18 +182,18 @@ prop("C11", [sel("shape", rules=["R-UNWIND", "R-HIDE"]), sel("zero", fn=r"^(TooD
 prop("C12", [sel("witness", fn=r"^(W6|W7|W9|<witness>)", keep_rule_floor=False), sel("shape", rules=["R-LEAK", "R-LEAK-DRAIN"]), sel("zero", fn=r"^TooDee::remove"), sel("encaps", fn=r"^(DrainCol|<api>)")],
      "Leak safety: (R-LEAK) a function returning a crate type whose destructor writes the shape returns with a consistent triple as if the destructor never ran; (R-LEAK-DRAIN) a returned std Drain over the buffer is a tail drain, so that Vec's leaked length equals the already-updated dimensions' product; (R-ZERO) the dimensions written eagerly obey the zero rule.  Iterators/views perform no shape write and have no shape-writing drop glue (they are not shape writers in the enumeration).",
      declined=["range.start == new_rows*new_cols for the tail drain (arithmetic, DESIGN 2.4)"])
-prop("C13", [sel("nth"), sel("layout", fn=r"(swap|<rule>)"), sel("guard", fn=SWAPS), sel("units", fn=SWAPS), sel("dup", fn=r"(swap|fill|row_pair)")],
+prop("C13", [sel("fillshape"), sel("nth"), sel("layout", fn=r"(swap|<rule>)"), sel("guard", fn=SWAPS), sel("units", fn=SWAPS), sel("dup", fn=r"(swap|fill|row_pair)")],
      "Swap/fill primitives, structural clauses: (R-GUARD) swap, swap_rows, swap_cols, row_pair_mut on the owned array, the mutable view and the provided defaults compare each index strictly with the right dimension (directly, via the ordered-swap idiom, or via nth(..).unwrap()); (R-UNITS) no row/column mix-up; (R-DUP) only swap primitives move elements. (R-LAYOUT) TooDee::swap addresses row*C+col for both cells (L-POS), both swap_rows overrides address [r1*S,+C) and [r2*S,+C) as polynomial identities after composing the nested slices (stride-aware for the view); (R-NTH) the provided swap_rows / row_pair_mut / swap that third-party implementors inherit address, through rows_mut().nth(a) followed by nth(k) (rows a and a+1+k), exactly the rows / cells named by their arguments on every path, row_pair_mut returning them in argument order; (R-GUARD) no normal return bypasses a bounds check.")
-prop("C14", [sel("nonzero", fn=r"(copy_|clone_from|CopyOps|<rule>)"), sel("guard", fn=r"copy_within"), sel("units", fn=r"(copy_|clone_from)"), sel("dup", fn=r"(copy_|clone_from|CopyOps)")],
-     "clauses only: guard/unit clauses of C14 - (R-GUARD) the six coordinates of copy_within are bounded against the dimension of their unit (directly or through the ordered source rectangle); (R-ARITH) no `+` on a caller coordinate before its guard; (R-UNITS) row offsets index rows, column offsets slice rows; (R-DUP) bitwise copies only under T: Copy via slice methods; (R-NONZERO) no chunks*/division sees a possibly-zero column count (empty destinations are valid shapes).",
+prop("C14", [sel("copyshape"), sel("nonzero", fn=r"(copy_|clone_from|CopyOps|<rule>)"), sel("guard", fn=r"copy_within"), sel("units", fn=r"(copy_|clone_from)"), sel("dup", fn=r"(copy_|clone_from|CopyOps)")],
+     "clauses only: guard/unit clauses of C14 - (R-COPYSHAPE) each of the eight copy functions compares the sizes with a diverging guard that dominates every write (or is one std slice copy of the whole buffer, which checks lengths) and transfers rows destination <- source from zip(rows_mut(), source rows); (R-GUARD) the six coordinates of copy_within are bounded against the dimension of their unit (directly or through the ordered source rectangle); (R-ARITH) no `+` on a caller coordinate before its guard; (R-UNITS) row offsets index rows, column offsets slice rows; (R-DUP) bitwise copies only under T: Copy via slice methods; (R-NONZERO) no chunks*/division sees a possibly-zero column count (empty destinations are valid shapes).",
      declined=["overlap direction of copy_within and row-major equality of the result (iteration order vs values)"])
-prop("C15", [sel("layout", fn=r"get_unchecked_row_mut|<rule>"), sel("guard", fn=r"translate"), sel("units", fn=r"(translate|flip)"), sel("dup", fn=r"(Translate|translate|flip)")],
-     "clauses only: guard and permutation clauses of C15 - mid <= (num_cols, num_rows) with the right units; translate.rs moves elements only with swap_with_slice / rotate_left / reverse on rows obtained from the trait (no element lost or duplicated); the unchecked row getters it relies on address row*stride .. +num_cols on every implementor (R-LAYOUT L-ROW); no cross-axis comparison of a mid-point with the other dimension (R-UNITS u1, also for equalities).",
+prop("C15", [sel("flipshape"), sel("layout", fn=r"get_unchecked_row_mut|<rule>"), sel("guard", fn=r"translate"), sel("units", fn=r"(translate|flip)"), sel("dup", fn=r"(Translate|translate|flip)")],
+     "clauses only: guard and permutation clauses of C15 - (R-FLIPSHAPE) flip_rows swaps next() with next_back() of one rows_mut() cursor, flip_cols reverses every row; mid <= (num_cols, num_rows) with the right units; translate.rs moves elements only with swap_with_slice / rotate_left / reverse on rows obtained from the trait (no element lost or duplicated); the unchecked row getters it relies on address row*stride .. +num_cols on every implementor (R-LAYOUT L-ROW); no cross-axis comparison of a mid-point with the other dimension (R-UNITS u1, also for equalities).",
      declined=["the position formula new[(c,r)] == old[((c+mc)%C,(r+mr)%R)] and index validity inside the cycle-leader loop (number theory, DESIGN 2.2)"])
-prop("C16", [sel("deleg", fn=r"sort_.*row"), sel("sortshape", fn=r"sort_.*row"), sel("guard", fn=r"sort_.*row"), sel("units", fn=r"sort_.*row"), sel("dup", fn=r"sort_.*row")],
-     "clauses only: sort-by-row family - (R-DELEG) each wrapper reaches the core of its own axis and stability with its index forwarded; (R-SORTSHAPE) s1 side sort of matching stability, s2 comparator/key argument order, s4 the swap trace is applied to every row, s5 user code only before the first write; (R-GUARD) row < num_rows; (R-DUP) only ptr::swap moves elements.",
+prop("C16", [sel("sortkey", fn=r"sort_.*row"), sel("deleg", fn=r"sort_.*row"), sel("sortshape", fn=r"sort_.*row"), sel("guard", fn=r"sort_.*row"), sel("units", fn=r"sort_.*row"), sel("dup", fn=r"sort_.*row")],
+     "clauses only: sort-by-row family - (R-DELEG) each wrapper reaches the core of its own axis and stability with its index forwarded; (R-SORTSHAPE) s1 side sort of matching stability, s3 the key line is self[row] (resp. self.col(col)) of the given index, s2 comparator/key argument order, s4 the swap trace is applied to every row, s5 user code only before the first write; (R-GUARD) row < num_rows; (R-DUP) only ptr::swap moves elements.",
      declined=["build_swap_trace turning the permutation into transpositions; sortedness/stability as observed (std's contract given s1-s2)"])
-prop("C17", [sel("deleg", fn=r"sort_.*col"), sel("sortshape", fn=r"sort_.*col"), sel("guard", fn=r"sort_.*col"), sel("units", fn=r"sort_.*col"), sel("dup", fn=r"sort_.*col")],
+prop("C17", [sel("sortkey", fn=r"sort_.*col"), sel("deleg", fn=r"sort_.*col"), sel("sortshape", fn=r"sort_.*col"), sel("guard", fn=r"sort_.*col"), sel("units", fn=r"sort_.*col"), sel("dup", fn=r"sort_.*col")],
      "clauses only: sort-by-column family - as C16 with columns: wrappers reach the *_col cores (R-DELEG, R-UNITS u4), the trace is applied with swap_rows, col < num_cols.",
      declined=["as C16"])
 prop("C18", [sel("serde", desc=r"^(t1|t2)|t1 |t2 ")],
@@ -198,6 +202,6 @@ prop("C18", [sel("serde", desc=r"^(t1|t2)|t1 |t2 ")],
 prop("C19", [sel("serde"), sel("zero", fn=r"visit_map|Deserialize")],
      "Deserialisation, structural clauses: (t4) the reader's own code has no panicking callee or bounds assertion, and each panic condition of the asserting constructor it calls - K_OVF, K_LEN (classified from the constructor's MIR), K_ZERO (R-ZERO at the call) - is discharged by a dominating guard whose failing edge returns Err; (t1) missing/unknown fields are errors; the constructor receives the parsed values in order.",
      declined=["panics inside serde / serde_json / the element type's Deserialize"])
-prop("C20", [sel("layout", fn=r"TooDeeView(Mut)?::new|<rule>"), sel("zero", fn=CTORS), sel("deleg", fn=r"from_box"), sel("units", fn=CTORS)],
-     "Constructors, structural clauses: (R-ZERO) new/init/from_vec/TooDeeView::new/TooDeeViewMut::new and every other construction site only build arrays whose dimensions are both zero or both non-zero; (R-UNITS u5) fields are initialised from parameters of their own unit (no exchanged dimensions, also in From<view>); (R-DELEG) from_box forwards to from_vec in order; (R-LAYOUT) the slice constructors of the views keep exactly the prefix num_cols*num_rows of the given buffer (L-PREFIX, exact extent).",
+prop("C20", [sel("conv"), sel("layout", fn=r"TooDeeView(Mut)?::new|<rule>"), sel("zero", fn=CTORS), sel("deleg", fn=r"from_box"), sel("units", fn=CTORS)],
+     "Constructors, structural clauses: (R-ZERO) new/init/from_vec/TooDeeView::new/TooDeeViewMut::new and every other construction site only build arrays whose dimensions are both zero or both non-zero; (R-UNITS u5) fields are initialised from parameters of their own unit (no exchanged dimensions, also in From<view>); (R-DELEG) from_box forwards to from_vec in order; (R-CONV) into_iter / From<TooDee> for Vec and Box move the Vec whole, From<view> x2 append view.rows() front to back and take both dimensions from the view's own getters, Clone/PartialEq/Hash are compiler-derived; (R-LAYOUT) the slice constructors of the views keep exactly the prefix num_cols*num_rows of the given buffer (L-PREFIX, exact extent).",
      declined=["row-major equality of contents as values; Hash/Eq agreement is the derive's contract"])
